@@ -7,6 +7,7 @@ import (
 	"fmt"
 	"image/color"
 	"math"
+	"strings"
 	"time"
 
 	"verifharness/internal/core"
@@ -252,6 +253,36 @@ func runC01(r *core.Run) {
 	r.Rule = "every 8-bit and 16-bit code x 4 spaces x every public decode entry point x channel position (enumerated, so every case is distinct); non-trivial = code strictly between 0 and the maximum"
 	r.Exhaustive = true
 	r.Assumptions = []string{"reference EOTFs transcribed from IEC 61966-2-1, Adobe RGB (1998) and ISO 22028-2 in harness/internal/refcolor", "Display P3 is judged against the sRGB curve because its specification prescribes it"}
+	// fresh process whose very first decode goes through one chosen entry point (then the others,
+	// in rotation): a lazily built table that one entry point reads without building shows only
+	// when that entry point is the first to be used
+	if strings.HasPrefix(r.Variant, "firstentry:") {
+		var k int
+		fmt.Sscanf(r.Variant[len("firstentry:"):], "%d", &k)
+		entries := append(append([]string{}, c01Entries8...), c01Entries16...)
+		var n int64
+		for _, s := range libSpaces {
+			for j := range entries {
+				e := entries[(k+j)%len(entries)]
+				max := 255
+				if c01Width(e) == 16 {
+					max = 65535
+				}
+				for _, code := range []int{max, max / 2, 1, 0, max - 1, max/2 + 1, 7} {
+					for ch := 0; ch < 3; ch++ {
+						cs := c01Case{s.Name, e, ch, code, 0}
+						bad, kind, msg, _ := c01Point(cs)
+						n++
+						if bad {
+							r.Violate("point", fmt.Sprintf("%s/%s/%s/first-entry", s.Name, e, kind), fmt.Sprintf("%s (fresh process; the first decode of the process went through %s)", msg, entries[k%len(entries)]), cs)
+						}
+					}
+				}
+			}
+		}
+		r.AddEvals(n)
+		return
+	}
 	maxErr := map[string]float64{}
 	maxAt := map[string]int{}
 	type job struct {
@@ -390,6 +421,15 @@ func runC01(r *core.Run) {
 			r.RunVariantChild(v, 10*time.Minute, false)
 		}
 		r.Obs("fresh_process_variants", []string{"encfirst@3", "encfirst+rev@1", "warm@2"})
+		nfe := len(c01Entries8) + len(c01Entries16)
+		core.ParallelFor(2*nfe, 8, func(i int) {
+			v := fmt.Sprintf("firstentry:%d@%d", i%nfe, 1+i%3)
+			if i >= nfe {
+				v = fmt.Sprintf("firstentry:%d+rev@%d", i%nfe, 2+i%3)
+			}
+			r.RunVariantChild(v, 5*time.Minute, false)
+		})
+		r.Obs("fresh_process_first_entry_children", 2*nfe)
 	}
 	r.Obs("max_abs_error_per_space", maxErr)
 	r.Obs("code_of_max_error_per_space", maxAt)
